@@ -100,6 +100,12 @@ fn normalise(line: &str, max: usize) -> String {
     out
 }
 
+/// `Panic::signature()` with build-directory hashes removed (generated parser lives in target/.../out/)
+fn panic_sig(p: &Panic) -> String {
+    let sig = p.signature();
+    match sig.find("/out/") { Some(i) if sig.starts_with("panic:/") => format!("panic:{}", &sig[i + "/out/".len()..]), _ => sig }
+}
+
 fn first_error_line(diag: &str) -> Option<&str> { diag.lines().find(|l| l.starts_with("error") || l.starts_with("bug")) }
 
 fn eval_case(c: &Case) -> Verdict {
@@ -113,12 +119,12 @@ fn eval_case(c: &Case) -> Verdict {
     let first_line = out.diag.lines().find(|l| !l.trim().is_empty()).unwrap_or("<no diagnostics>");
     let (class, viol);
     if let Some(p) = &out.panic {
-        let sig = p.signature();
+        let sig = panic_sig(p);
         class = sig.clone();
         viol = Some(format!("C04:{sig}"));
     } else if let Some(pos) = out.diag.find("<diagnostic rendering panicked: ") {
         let text = out.diag[pos + "<diagnostic rendering panicked: ".len()..].trim_end_matches('>').to_string();
-        let sig = Panic { text }.signature();
+        let sig = panic_sig(&Panic { text });
         class = format!("render-{sig}");
         viol = Some(format!("C04:render-{sig}"));
     } else if ok && has_err {
@@ -131,7 +137,7 @@ fn eval_case(c: &Case) -> Verdict {
         viol = Some(format!("C04:fails-without-error:{k}:{l}"));
     } else if ms >= CASE_TIMEOUT.as_millis() as u64 {
         class = "slow".into();
-        viol = Some(format!("C04:timeout:{}:{}", c.sigkey, k));
+        viol = Some(format!("C04:timeout:{}{}", sigkey_prefix(c), k));
     } else if ok {
         class = if out.diag.lines().any(|l| l.starts_with("warning")) {
             format!("ok+{}", normalise(out.diag.lines().find(|l| l.starts_with("warning")).unwrap(), 60))
@@ -142,6 +148,20 @@ fn eval_case(c: &Case) -> Verdict {
         viol = None;
     }
     Verdict { class, viol, ms, diag: out.diag, ok }
+}
+
+fn sigkey_prefix(c: &Case) -> String { if c.sigkey.is_empty() { String::new() } else { format!("{}:", c.sigkey) } }
+
+fn death_cause(how: &str) -> String {
+    if how.contains("overflowed its stack") || how.contains("stack overflow") { return "stack-overflow".into(); }
+    if let Some(i) = how.find("memory allocation of") { return normalise(how[i..].split(" |").next().unwrap_or(""), 60); }
+    if how.contains("capacity overflow") { return "capacity-overflow".into(); }
+    let st = how.split(" stderr=").next().unwrap_or("").trim_start_matches("status=");
+    normalise(st, 40)
+}
+fn death_sig(c: &Case, how: &str, timeout: bool) -> String {
+    if timeout { format!("C04:timeout:{}{}", sigkey_prefix(c), kind_name(c.tool.kind)) }
+    else { format!("C04:abort:{}{}:{}", sigkey_prefix(c), kind_name(c.tool.kind), death_cause(how)) }
 }
 
 fn vm_hwm_kb() -> u64 {
@@ -199,7 +219,7 @@ fn worker_loop(thorough: bool) {
             let mut viol = v.viol.clone();
             let now = vm_hwm_kb();
             if now > hwm + (1 << 20) && c.src.len() < (1 << 20) && viol.is_none() {
-                viol = Some(format!("C04:memory-exhaustion:{}:{}", c.sigkey, kind_name(c.tool.kind)));
+                viol = Some(format!("C04:memory-exhaustion:{}{}", sigkey_prefix(c), kind_name(c.tool.kind)));
             }
             hwm = hwm.max(now);
             if let Some(sig) = viol {
@@ -443,7 +463,7 @@ fn seeds() -> Vec<Seed> {
     add("anm12-const", Kind::Anm, "th12", format!("const int N = 2 + 3;\n{ANM_ENTRY}script script0 {{\n    ins_6(N, $REG[10001]);\n    ins_7(1.0:2.0, rad(3.0));\n    unless (N != 5) {{ ins_0(); }}\n}}\n").replace("1.0:2.0", "1.5"), None);
     // ---- trustd
     add("std06-basic", Kind::Std, "th06", format!("{STD06_META}script main {{\n    ins_0(1.0, 2.0, 3.0);\n10:\n    ins_3(@blob=\"01000000 02000000 03000000\");\n}}\n"), None);
-    add("std06-loop", Kind::Std, "th06", format!("{STD06_META}script main {{\n    ins_1(0x10, 20.0, 30.0);\n+100:\n    ins_2(1.0, 2.0, 3.0);\n-5:\n    ins_4();\n}}\n"), None);
+    add("std06-loop", Kind::Std, "th06", format!("{STD06_META}script main {{\n    ins_1(0x10, 20.0, 30.0);\n+100:\n    ins_2(1.0, 2.0, 3.0);\n-5:\n    ins_4(1);\n}}\n"), None);
     add("std12-basic", Kind::Std, "th12", format!("{STD12_META}script main {{\n    ins_2(1.0, 2.0, 3.0);\n10:\n    ins_3(60, 1, 1.0, 2.0, 3.0);\n30:\n    ins_0();\n}}\n"), None);
     add("std12-loop", Kind::Std, "th12", format!("{STD12_META}script main {{\n    loop {{\n        ins_7(0.5);\n    +30:\n        ins_0();\n    }}\n}}\n"), None);
     // ---- trumsg
@@ -458,7 +478,7 @@ fn seeds() -> Vec<Seed> {
     add("ecl06-expr", Kind::Ecl, "th06", "script timeline0 {}\nvoid sub0() {\n    int a = I0 + 2;\n    F0 = (F1 + 1.0) * 2.0;\n    I1 = 3:4:5:6;\n    {\"EN\"}: nop();\n    if (a < 5) { I0 = a; } else if (a == 7) { goto out; } else { I0 = -a; }\nout:\n    sub1(3, 1.5);\n}\nvoid sub1(int x, float y) {\n    I1 = x;\n    F1 = y;\n}\n".into(), Some(ECL_NAMES_06));
     add("ecl06-timeline", Kind::Ecl, "th06", "script timeline0 {\n    ins_0(sub0, 1.0, 2.0, 3.0, 4, 5, 6);\n+30:\n    ins_2(sub1, 1.0, 2.0, 3.0, 4, 5, 6);\n    ins_10(1, 2);\n}\nvoid sub0() {\n    loop { +1: nop(); }\n}\nvoid sub1() {\n    times(I1 = 4) { I0 += 1; }\n}\n".into(), Some(ECL_NAMES_06));
     add("ecl07-basic", Kind::Ecl, "th07", "script timeline0 {\n    ins_0(sub0, 1.0, 2.0, 3.0, 4, 5, 6);\n}\nscript timeline1 {\n7:\n    ins_11(4);\n}\nvoid sub0() {\n    $REG[10000] = $REG[10001] * 3 - 1;\n    %REG[10004] = cos(%REG[10005]);\n    {\"1\"}: ins_0();\n    do { $REG[10000] -= 1; } while ($REG[10000] > 0);\n}\n".into(), None);
-    add("ecl07-call", Kind::Ecl, "th07", "script timeline0 {}\nvoid sub0() {\n    int i = 2;\n    float f = 0.5 + %REG[10004];\n    sub1(i, f);\n}\nvoid sub1(int a, float b) {\n    $REG[10000] = a;\n    %REG[10004] = b;\n    return;\n}\n".into(), None);
+    add("ecl07-call", Kind::Ecl, "th07", "script timeline0 {}\nvoid sub0() {\n    int i = 2;\n    float f = 0.5 + %REG[10004];\n    sub1(i, f);\n}\nvoid sub1(int a, float b) {\n    $REG[10000] = a;\n    %REG[10004] = b;\n}\n".into(), None);
     add("ecl08-expr", Kind::Ecl, "th08", "script timeline0 {}\nvoid sub0() {\n    int a = I0 + 2;\n    F0 = (F1 + 1.0) * 2.0;\n    I1 = 3:4:5:6;\n    {\"H\"}: nop();\n    if (a < 5 && I1 != 0) { I0 = a; } else { I0 = a > 3 ? 1 : 2; }\n    I0 = -I1 + (a % 2);\n}\n".into(), Some(ECL_NAMES_08));
     add("ecl08-timeline", Kind::Ecl, "th08", "script 1 second {\n    ins_0(sub0, 1.0, 2.0, 4, 5, 6);\n10:\n    ins_9(3);\n}\nscript 0 first {\n    ins_16();\n}\nvoid sub0() {\nagain:\n    ins_0();\n+8:\n    if ($REG[10000] != 0) goto again;\n    sub1();\n}\nvoid sub1() {}\n".into(), None);
     add("ecl08-call", Kind::Ecl, "th08", "script timeline0 {}\nconst float K = 1.5;\nvoid sub0() {\n    sub1(1, 2, K, $REG[10000]);\n    times(3) { sub1(0, 0, 0.0, 0); }\n}\nvoid sub1(int a, int b, float c, int d) {\n    $REG[10000] = a + b + d;\n    %REG[10016] = c;\n}\n".into(), None);
@@ -570,6 +590,460 @@ fn byte_cases(seed_ix: usize, op: &str, seeds: &[Seed], thorough: bool) -> Vec<C
 }
 
 // =============================================================================================
+// (iv) extreme literals
+
+const LIT_TPLS: &[&str] = &["anm12", "ecl08", "ecl06", "std12", "msg12", "anm06", "end10", "tl08"];
+
+fn rep(s: &str, n: usize) -> String { s.repeat(n) }
+
+fn lit_cases(key: &str) -> Vec<Case> {
+    if key == "mission095" { return lit_mission(); }
+    let t = tpl(key);
+    let mut bodies: Vec<(String, String)> = vec![]; // (label, body)
+    let ints: Vec<(String, String)> = [
+        "2147483647", "2147483648", "4294967295", "4294967296", "0x100000000", "0xFFFFFFFF", "0x7fffffff", "0x", "0b", "0b2", "1_000",
+        "00000000000000000000001", "-2147483648", "-2147483649", "-4294967296", "- 2147483648", "18446744073709551616", "99999999999999999999",
+    ].iter().map(|x| (x.to_string(), x.to_string())).chain([
+        ("0b + 40 ones".to_string(), format!("0b{}", rep("1", 40))), ("0b + 32 ones".to_string(), format!("0b{}", rep("1", 32))),
+        ("5000-digit int".to_string(), rep("9", 5000)), ("0x + 5000 f".to_string(), format!("0x{}", rep("f", 5000))),
+    ]).collect();
+    for (l, x) in &ints {
+        bodies.push((format!("int literal {l} as argument"), format!("ins_2000({x});")));
+        bodies.push((format!("int literal {l} in a constant expression"), format!("ins_2000({x} + 0);")));
+    }
+    let floats: Vec<(String, String)> = [
+        "99999999999999999999.0", "340282350000000000000000000000000000000.0", "340282360000000000000000000000000000000.0", "1.0f", "1.f", "1f", "-0.0",
+        "1.", ".5", "1e39", "1.0e39", "INF", "-INF", "NAN", "-NAN", "rad(99999999999999999999.0)", "rad(-1)", "rad(+1.5f)", "rad()", "rad(1.0.0)", "rad(--1)", "rad(1e5)",
+    ].iter().map(|x| (x.to_string(), x.to_string())).chain([
+        ("5000-digit float".to_string(), format!("1{}.0", rep("0", 5000))), ("tiny 5000-digit float".to_string(), format!("0.{}1", rep("0", 5000))),
+        ("5000-digit rad()".to_string(), format!("rad(1{}.0)", rep("0", 5000))),
+    ]).collect();
+    for (l, x) in &floats {
+        bodies.push((format!("float literal {l} as argument"), format!("ins_2001({x});")));
+        bodies.push((format!("float literal {l} cast to int"), format!("ins_2000(int({x}));")));
+    }
+    for st in [
+        "ins_65535();", "ins_65536();", "ins_4294967296();", "ins_99999999999999999999();", "ins_00();", "ins_();", "ins_1x();", "ins_-1();", "ins_0x10();", "ins_2004(@blob=\"\");",
+        "ins_2000(@mask=4294967296, 1);", "ins_2000(@mask=-1, 1);", "ins_2000(@mask=65536, 1);", "ins_2000(@mask=2147483648, 1);", "ins_2000(@mask=1.0, 1);", "ins_2000(@mask=\"s\", 1);",
+        "ins_2000(@mask=1, @mask=2, 1);", "ins_2004(@blob=\"zz\");", "ins_2004(@blob=\"0\");", "ins_2004(@blob=\"00\");", "ins_2000(@blob=\"00000000\");", "ins_2004(@blob=1);",
+        "ins_2000(@blob=\"00000000\", 1);", "ins_2000(@blob=\"00000000\", @blob=\"00000000\");", "ins_2004(@blob=\"00 00 00 00\");", "ins_2004(@blob=\"0000000g\");", "ins_2004(@blob=\"日本\");",
+        "ins_2004(@arg0=65536);", "ins_2004(@arg0=-1);", "ins_2004(@arg0=1.0);", "ins_2004(@arg0=4294967296);", "ins_2004(@nargs=1);", "ins_2004(@nargs=4294967296);", "ins_2004(@pop=1);", "ins_2004(@pop=-1);", "ins_2004(@bogus=1);",
+        "ins_2003(\"\\\\\");", "ins_2003(\"\\n\");", "ins_2003(\"\\0\");", "ins_2003(\"\\x\");", "ins_2003(\"\\u{1F600}\");", "ins_2003(\"\\\");", "ins_2003(\"日本\");", "ins_2003(\"😀\");", "ins_2003(\"\");", "ins_2003(\"a\\\n\");",
+        "ins_2000(2147483647 + 1);", "ins_2000(-2147483648 - 1);", "ins_2000(2147483647 * 2);", "ins_2000(-2147483648 / -1);", "ins_2000(-2147483648 % -1);", "ins_2000(1 / 0);", "ins_2000(1 % 0);",
+        "ins_2000(1 << 32);", "ins_2000(1 << -1);", "ins_2000(1 >> 32);", "ins_2000(1 >>> 33);", "ins_2000(-(-2147483648));", "ins_2000(~(-1));", "ins_2000(int(99999999999999999999.0) + 1);", "ins_2000(int(NAN));", "ins_2000(int(-INF));",
+        "ins_2001(float(2147483647));", "ins_2001(sqrt(-1.0));", "ins_2001(1.0 / 0.0);", "ins_2001(1.0 % 0.0);", "ins_2001(sin(INF));", "ins_2001(acos(2.0));", "ins_2000(1 == 1.0);", "ins_2000(1 ? 2 : 3);",
+        "ins_2000(1:2:3:4:5:6:7:8:9);", "ins_2000(::1);", "ins_2000(1::);", "ins_2000(:);", "ins_2000(offsetof(nolabel));", "ins_2000(timeof(l));\nl:", "ins_2000(offsetof(l) + 2147483647);\nl:",
+        "const int x = 2147483647 + 1;\nins_2000(x);", "const string s = \"a\";\nins_2003(s);", "const float f = 1.0 / 0.0;\nins_2001(f);", "const int a = a;\nins_2000(a);", "const int a = b;\nconst int b = a;\nins_2000(a);", "const int a = 1, a = 2;",
+    ] { bodies.push((format!("statement `{}`", st.chars().take(60).collect::<String>()), st.to_string())); }
+    for lab in ["2147483647:", "2147483648:", "4294967295:", "4294967296:", "+2147483648:", "+4294967296:", "-2147483648:", "-2147483649:", "+(-1):", "+(2147483647 + 1):", "+1.0:", "+x:", "+(1/0):",
+        "65536:", "32768:", "-32769:", "2147483647:\n+1:", "-2147483648:\n+(-1):", "+2147483647:\n+2147483647:", "1.0:", "0x10:", "+:", "--1:", "+\"s\":"] {
+        bodies.push((format!("time label `{}`", lab.replace('\n', " ")), format!("{lab}\n    ins_2004();")));
+    }
+    bodies.push(("100 KB string literal".into(), format!("ins_2003(\"{}\");", rep("a", 100_000))));
+    bodies.push(("100 KB string literal of 3-byte characters".into(), format!("ins_2003(\"{}\");", rep("日", 33_334))));
+    bodies.push(("100 KB blob".into(), format!("ins_2004(@blob=\"{}\");", rep("00", 50_000))));
+    bodies.push(("100 KB identifier".into(), format!("ins_2000({});", rep("a", 100_000))));
+    bodies.push(("100 KB comment".into(), format!("/*{}*/ ins_2004();", rep("*", 100_000))));
+    bodies.push(("10 000 statements".into(), rep("ins_2004();\n", 10_000)));
+    bodies.push(("10 000 labels".into(), (0..10_000).map(|i| format!("l{i}:\n")).collect()));
+    bodies.push(("10 000 time labels".into(), rep("+1:\nins_2004();\n", 10_000)));
+    bodies.push(("1 000 const declarations".into(), (0..1000).map(|i| format!("const int c{i} = {i};\n")).collect::<String>() + "ins_2000(c999);"));
+    bodies.push(("10 000 arguments".into(), format!("ins_2000({}1);", rep("1, ", 9_999))));
+    if t.has_regs() {
+        let (r, f) = (format!("$REG[{}]", t.ireg), format!("%REG[{}]", t.freg));
+        for st in [
+            "$REG[-2147483648] = 1;".to_string(), "$REG[2147483648] = 1;".into(), "$REG[4294967295] = 1;".into(), "$REG[4294967296] = 1;".into(), "$REG[-2147483649] = 1;".into(), "$REG[- 1] = 1;".into(), "$REG[99999] = 1;".into(),
+            "ins_2000($REG[-2147483648]);".into(), "ins_2000($REG[99999]);".into(), "ins_2000(REG[99999]);".into(), format!("%REG[{}] = 1.0;", t.ireg), format!("ins_2000(%REG[{}]);", t.ireg), format!("ins_2001($REG[{}]);", t.freg),
+            format!("{r} = {r} / 0;"), format!("{r} = -2147483648 / {r};"), format!("{r} = {r} % 0;"), format!("{f} = {f} / 0.0;"), format!("{r} = 2147483647 + 1 + {r};"), format!("{r} += 2147483648;"), format!("{r} = 4294967295;"),
+            "times(4294967296) { ins_2004(); }".into(), "times(-1) { ins_2004(); }".into(), "times(2147483648) { ins_2004(); }".into(), "times(0) { ins_2004(); }".into(), "times(1.5) { ins_2004(); }".into(), format!("times({r} = 2147483648) {{ ins_2004(); }}"),
+            "goto l @ 2147483648;\nl:".into(), "goto l @ -2147483649;\nl:".into(), "goto l @ 65536;\nl:".into(), "int x = 2147483648;\nins_2000(x);".into(), "float x = 99999999999999999999.0;\nins_2001(x);".into(),
+            format!("{r} = {};", rep("9", 5000)), format!("{f} = 1{}.0;", rep("0", 5000)),
+        ] { bodies.push((format!("statement `{}`", st.chars().take(60).collect::<String>().replace('\n', " ")), st)); }
+        bodies.push(("1 000 locals".into(), (0..1000).map(|i| format!("int v{i} = {r};\n")).collect()));
+        bodies.push(("10 000 assignments".into(), rep(&format!("{r} = {r} + 1;\n"), 10_000)));
+    }
+    let mut out: Vec<Case> = bodies.into_iter().map(|(l, b)| t.case(&format!("    {b}\n"), format!("{key}: {l}"))).collect();
+    // numbers in item headers
+    for n in ["2147483647", "2147483648", "4294967295", "4294967296", "-2147483648", "-2147483649", "65536", "-1", "0x10", "1.0", "5000"] {
+        let n = if n == "5000" { rep("9", 5000) } else { n.to_string() };
+        out.push(Case::new(t.tool(), format!("{}script {n} extra {{}}\n", t.wrap("")), &[&test_map(t.kind)], format!("{key}: script number {}", n.chars().take(20).collect::<String>())));
+    }
+    // extreme values in metadata
+    let needles: &[&str] = match t.key {
+        "anm12" | "anm06" => &["img_width: 512", "img_format: 3", "id: 0", "x: 0.0", "has_data: false", "path: \"subdir/file.png\""],
+        "std12" => &["unknown: 0", "layer: 4", "anm_script: 3", "pos: [1.0, 2.0, 3.0]", "anm_path: \"stage01.anm\""],
+        "msg12" | "end10" => &["0: {script", "script: \"main\""],
+        _ => &[],
+    };
+    for needle in needles { for (l, x) in meta_values() {
+        let (field, _) = needle.split_once(':').unwrap();
+        let new = if needle.ends_with("{script") { format!("{x}: {{script") } else { format!("{field}: {x}") };
+        let src = t.wrap("").replacen(needle, &new, 1);
+        out.push(Case::new(t.tool(), src, &[&test_map(t.kind)], format!("{key}: metadata `{field}` = {l}")));
+    } }
+    if t.key == "msg12" { for (l, x) in meta_values() {
+        out.push(Case::new(t.tool(), t.wrap("").replacen("table: {", &format!("table_len: {x},\n    table: {{"), 1), &[], format!("{key}: metadata `table_len` = {l}")));
+        out.push(Case::new(t.tool(), t.wrap("").replacen("flags: 256", &format!("flags: {x}"), 1), &[], format!("{key}: metadata `flags` = {l}")));
+    } }
+    out
+}
+
+fn meta_values() -> Vec<(String, String)> {
+    let mut v: Vec<(String, String)> = ["2147483647", "2147483648", "4294967295", "4294967296", "-1", "-2147483648", "-2147483649", "65535", "65536", "32768", "1.5", "\"s\"", "NAN", "INF", "true", "$REG[1]", "1 + 1", "1 / 0",
+        "2147483647 + 1", "[1]", "{a: 1}", "v {a: 1}", "\"\"", "99999999999999999999.0", "sprite0", "x", "-x", "ins_1()", "offsetof(x)"].iter().map(|x| (x.to_string(), x.to_string())).collect();
+    v.push(("5000-digit int".into(), rep("9", 5000)));
+    v.push(("5000-digit float".into(), format!("1{}.0", rep("0", 5000))));
+    v.push(("100 KB string".into(), format!("\"{}\"", rep("a", 100_000))));
+    v
+}
+
+fn lit_mission() -> Vec<Case> {
+    let base = "entry { stage: 1, scene: 2, face: 3, point: 4, text: [\"abc\", \"\", \"line three\"] }\n";
+    let t = tool(Kind::Mission, "th095");
+    let mut out = vec![];
+    for needle in ["stage: 1", "scene: 2", "face: 3", "point: 4", "text: [\"abc\", \"\", \"line three\"]", "\"abc\""] { for (l, x) in meta_values() {
+        let new = match needle.split_once(':') { Some((f, _)) => format!("{f}: {x}"), None => x.clone() };
+        out.push(Case::new(t, base.replacen(needle, &new, 1), &[], format!("mission095: `{needle}` -> {l}")));
+    } }
+    out.push(Case::new(t, rep(base, 10_000), &[], "mission095: 10 000 entries"));
+    out.push(Case::new(t, "", &[], "mission095: empty file"));
+    out
+}
+
+// =============================================================================================
+// (v) nesting
+
+const NEST_SHAPES: &[&str] = &[
+    "paren", "paren-reg", "neg-paren", "neg-paren-reg", "neg-bare", "not-paren", "not-bare", "cast", "sin", "sin-reg", "binl", "binl-reg", "binr", "binr-reg",
+    "block", "if", "ifelse", "elseif", "ternr", "ternl", "ternm", "loop", "times", "while", "dowhile", "diffswitch", "callarg", "funcnest",
+    "meta-array", "meta-object", "meta-variant", "comment", "paren-unclosed", "brace-unclosed", "bracket-unclosed", "string-escapes",
+];
+
+fn nest_tpls(shape: &str) -> Vec<&'static str> {
+    if shape.starts_with("meta-") || shape == "bracket-unclosed" { return vec!["anm12", "std12", "msg12", "mission095"]; }
+    if shape.ends_with("-reg") || ["while", "dowhile"].contains(&shape) { return vec!["anm12", "ecl08", "ecl06"]; }
+    if shape == "funcnest" { return vec!["ecl08", "anm12"]; }
+    vec!["anm12", "ecl08", "ecl06", "std12", "msg12"]
+}
+
+fn nest_body(shape: &str, n: usize, t: &Tpl) -> String {
+    let r = if t.has_regs() { format!("$REG[{}]", t.ireg) } else { "1".to_string() };
+    let f = if t.has_regs() { format!("%REG[{}]", t.freg) } else { "1.0".to_string() };
+    let cond = if t.has_regs() { format!("{r} == 0") } else { "1 == 0".to_string() };
+    match shape {
+        "paren" => format!("ins_2000({}1{});", rep("(", n), rep(")", n)),
+        "paren-reg" => format!("{r} = {}{r}{};", rep("(", n), rep(")", n)),
+        "neg-paren" => format!("ins_2000({}1{});", rep("-(", n), rep(")", n)),
+        "neg-paren-reg" => format!("{r} = {}{r}{};", rep("-(", n), rep(")", n)),
+        "neg-bare" => format!("ins_2000({}1);", rep("- ", n)),
+        "not-paren" => format!("ins_2000({}{r}{});", rep("!(", n), rep(")", n)),
+        "not-bare" => format!("ins_2000({}x);", rep("!", n)),
+        "cast" => { let mut e = "1".to_string(); for i in 0..n { e = format!("{}({e})", if (n - i) % 2 == 0 { "float" } else { "int" }); } format!("ins_2000({e});") },
+        "sin" => format!("ins_2001({}1.0{});", rep("sin(", n), rep(")", n)),
+        "sin-reg" => format!("{f} = {}{f}{};", rep("sin(", n), rep(")", n)),
+        "binl" => format!("ins_2000(1{});", rep(" + 1", n)),
+        "binl-reg" => format!("{r} = {r}{};", rep(&format!(" + {r}"), n)),
+        "binr" => format!("ins_2000({}1{});", rep("1 + (", n), rep(")", n)),
+        "binr-reg" => format!("{r} = {}{r}{};", rep(&format!("{r} * ("), n), rep(")", n)),
+        "block" => format!("{}ins_2004();{}", rep("{ ", n), rep(" }", n)),
+        "if" => format!("{}ins_2004();{}", rep(&format!("if ({cond}) {{ "), n), rep(" }", n)),
+        "ifelse" => format!("{}ins_2004();{}", rep(&format!("if ({cond}) {{ ins_2004(); }} else {{ "), n), rep(" }", n)),
+        "elseif" => format!("if ({cond}) {{ ins_2004(); }}{}", rep(&format!(" else if ({cond}) {{ ins_2004(); }}"), n)),
+        "ternr" => format!("ins_2000({}2);", rep(&format!("{cond} ? 1 : "), n)),
+        "ternl" => format!("ins_2000({}{cond}{});", rep("(", n), rep(" ? 1 : 0)", n)),
+        "ternm" => format!("ins_2000({}5{});", rep(&format!("{cond} ? "), n), rep(" : 0", n)),
+        "loop" => format!("{}ins_2004(); break;{}", rep("loop { ", n), rep(" }", n)),
+        "times" => format!("{}ins_2004();{}", rep("times(2) { ", n), rep(" }", n)),
+        "while" => format!("{}{r} -= 1;{}", rep(&format!("while ({r} > 0) {{ "), n), rep(" }", n)),
+        "dowhile" => format!("{}ins_2004();{}", rep("do { ", n), rep(&format!(" }} while ({r} > 0);"), n)),
+        "diffswitch" => format!("ins_2000(1{});", rep(":1", n)),
+        "callarg" => format!("ins_2000({}1{});", rep("ins_2000(", n), rep(")", n)),
+        "funcnest" => format!("{}{}", (0..n).map(|i| format!("void f{i}() {{ ")).collect::<String>(), rep(" }", n)),
+        "comment" => format!("{}{} ins_2004();", rep("/* ", n), rep(" */", n)),
+        "paren-unclosed" => format!("ins_2000({}", rep("(", n)),
+        "brace-unclosed" => rep("{ ", n),
+        "string-escapes" => format!("ins_2003(\"{}\");", rep("\\\\", n)),
+        _ => panic!("unknown nesting shape {shape}"),
+    }
+}
+
+fn nest_meta(shape: &str, n: usize) -> String {
+    match shape {
+        "meta-array" => format!("{}{}", rep("[", n), rep("]", n)),
+        "meta-object" => format!("{}1{}", rep("{a: ", n), rep("}", n)),
+        "meta-variant" => format!("{}1{}", rep("v {a: ", n), rep("}", n)),
+        "bracket-unclosed" => rep("[", n),
+        _ => panic!("unknown meta shape {shape}"),
+    }
+}
+
+fn nest_cases(shape: &str, key: &str, thorough: bool) -> Vec<Case> {
+    let mut depths: Vec<usize> = (0..=8).map(|i| 1usize << i).collect();
+    if thorough { depths.push(1024); depths.push(4096); }
+    let is_meta = shape.starts_with("meta-") || shape == "bracket-unclosed";
+    depths.into_iter().map(|n| {
+        let mut c = if is_meta {
+            let v = nest_meta(shape, n);
+            if key == "mission095" { Case::new(tool(Kind::Mission, "th095"), format!("entry {{ zzz: {v}, stage: 1, scene: 2, face: 3, point: 4, text: [\"abc\", \"\", \"x\"] }}\n"), &[], "") }
+            else { let t = tpl(key); let src = t.wrap("").replacen(" {\n", &format!(" {{\n    zzz: {v},\n"), 1); Case::new(t.tool(), src, &[&test_map(t.kind)], "") }
+        } else { let t = tpl(key); t.case(&format!("    {}\n", nest_body(shape, n, &t)), "") };
+        c.desc = format!("{key}: {shape} nested to depth {n}");
+        c.info_only = n > VIOLATION_DEPTH;
+        c
+    }).collect()
+}
+
+// =============================================================================================
+// (vi) mapfile texts
+
+const MAP_TPLS: &[&str] = &["anm12", "ecl06", "msg12"];
+
+fn magic_of(kind: Kind) -> &'static str { match kind { Kind::Anm => "!anmmap", Kind::Std => "!stdmap", Kind::Msg | Kind::Mission => "!msgmap", Kind::End => "!endmap", Kind::Ecl => "!eclmap" } }
+
+/// (label, script body) variants a signature for opcode 2000 is exercised with
+const SIG_VARIANTS: &[(&str, &str)] = &[
+    ("unused", ""), ("no args", "ins_2000();"), ("blob", "ins_2000(@blob=\"00000000 00000000\");"), ("one int", "ins_2000(1);"), ("string", "ins_2000(\"a\");"),
+    ("three args", "ins_2000(1, 2.0, 3);"), ("label args", "l:\n    ins_2000(offsetof(l), timeof(l));"),
+];
+const SIG_ALPHABET: &[&str] = &["S", "s", "f", "z", "m", "p", "o", "t", "_", "-", "(", ")", "=", ";", ",", "0", "a", "\""];
+
+fn sig_strings(max_len: usize) -> Vec<String> {
+    let mut all = vec![String::new()];
+    let mut layer = vec![String::new()];
+    for _ in 0..max_len {
+        let mut next = vec![];
+        for p in &layer { for a in SIG_ALPHABET { next.push(format!("{p}{a}")); } }
+        all.extend(next.iter().cloned());
+        layer = next;
+    }
+    all
+}
+
+const ATTR_SIGS: &[&str] = &[
+    "z(bs=0)", "z(bs=4294967296)", "z(bs=-1)", "z(bs=4)", "z(bs=1)", "z(bs=2147483647)", "m(mask=256,0,0;bs=4)", "m(bs=4;mask=1,2,3)", "m(bs=4)", "m(mask=1,2,3)", "m(bs=4;mask=1,2)", "m(bs=4;mask=1,2,3,4)", "m(bs=4;mask=-1,0,0)",
+    "m(bs=0;mask=1,2,3)", "p(len=4)", "p(bs=4)", "p(bs=0)", "p", "z", "z(len=4)", "z(len=0)", "z(len=3;bs=4)", "z(len=4294967296)", "z(len=-1)", "z(bs=4)S", "Sz(bs=4)", "z(bs=4)z(bs=4)",
+    "S(enum=\"\")", "S(enum=\"1x\")", "S(enum=\"bool\")", "S(enum=\"NoSuch\")", "S(enum=bool)", "S(enum=1)", "f(enum=\"bool\")", "S(enum=\"a\";enum=\"b\")", "s(arg0)S(arg0)", "S(arg0)", "f(arg0)", "s(arg0)", "u(arg0)", "Ss(arg0)",
+    "oo", "ot", "to", "tt", "o", "t", "o(hex)", "S(hex)", "S(imm)", "f(imm)", "S(imm;hex;imm)", "S()", "S(", "S(=)", "S(x=)", "S(x)", "S(bs=4)", "_(imm)", "-(imm)", "z(bs=4;bs=8)", "z(bs=\"4\")", "S(imm=1)",
+    "b-", "b---S", "ss-", "sS", "bS", "Sb", "sss", "---", "_", "__", "S_", "C", "c", "N", "n", "E", "U(hex)", "T", "T(imm)", "F", "q", "é", "S S", "S,S", "S;S", "SSSSSSSSSSSSSSSSSSSSSSSSSSSSSSSSS", "S(imm)f(imm)z(bs=4)",
+];
+
+const INTRINSICS: &[&str] = &[
+    "BinOp()", "BinOp(op=\"?\";type=\"int\")", "BinOp(op=\"+\";type=\"int\")", "BinOp(op=\"+\";type=\"string\")", "BinOp(op=\"+\")", "BinOp(type=\"int\")", "BinOp(op=\"+\";type=\"int\";x=\"y\")", "BinOp(op=\"+\";op=\"-\";type=\"int\")",
+    "BinOp(op=\"==\";type=\"float\")", "BinOp(op=\"<<\";type=\"float\")", "BinOp(op=\"&&\";type=\"int\")", "CondJmp(op=\"+\";type=\"int\")", "CondJmp(op=\"==\";type=\"int\")", "CondJmp(op=\"==\";type=\"float\")", "CondJmp(op=\"==\")",
+    "CountJmp(op=\"<\")", "CountJmp(op=\"!=\")", "CountJmp(op=\">\")", "CountJmp()", "CountJmp", "Jmp(x)", "Jmp()", "Jmp", "Jmp(", "Jmp)", "Jmp(op=\"+\")", "CallEosd()", "CallReg()", "InterruptLabel()",
+    "AssignOp(op=\"=\";type=\"int\")", "AssignOp(op=\"+=\";type=\"float\")", "AssignOp(op=\"+\";type=\"int\")", "AssignOp(op=\"==\";type=\"int\")", "UnOp(op=\"sin\";type=\"int\")", "UnOp(op=\"sin\";type=\"float\")", "UnOp(op=\"-\";type=\"int\")",
+    "UnOp(op=\"int\";type=\"float\")", "UnOp(op=\"$\";type=\"int\")", "UnOp(op=\"!\";type=\"float\")", "CondJmp2A(type=\"int\")", "CondJmp2A(type=\"string\")", "CondJmp2B(op=\"==\")", "CondJmp2B(op=\"+\")", "CondJmp2B()",
+    "", "garbage", "bin op()", "BinOp(op=+;type=int)", "BinOp(op=\"+\",type=\"int\")", "BinOp(op=\"+\";type=\"int\"", "1", "\"BinOp\"", "BinOp(op=\"\";type=\"\")", "é()", "BinOp(op=\"+\";type=\"int\")BinOp(op=\"+\";type=\"int\")",
+];
+const INTRINSIC_SIGS: &[&str] = &["", "S", "SS", "SSS", "Sf", "ff", "fff", "ot", "to", "otSS", "SSot", "Sot", "SSto", "o", "S(imm)", "SS(imm)S", "zS"];
+
+fn valid_map(kind: Kind) -> String {
+    let mut s = format!("{}\n!ins_names\n2000 takeInt\n2001 takeFloat\n!ins_signatures\n2000 S\n2001 f\n2002 SS(enum=\"Foo\")\n2003 z(bs=4)\n2006 SS\n2007 SSS\n2008 ot\n!ins_intrinsics\n2006 AssignOp(op=\"=\"; type=\"int\")\n2007 BinOp(op=\"+\"; type=\"int\")\n2008 Jmp()\n!gvar_names\n20000 MYVAR\n!gvar_types\n20000 $\n!enum(name=\"Foo\")\n1 apple\n2 pear\n", magic_of(kind));
+    if kind == Kind::Ecl { s += "!timeline_ins_names\n2000 tlInt\n!timeline_ins_signatures\n2000 S\n!difficulty_flags\n0 E-\n1 N+\n"; }
+    s
+}
+fn valid_map_body(kind: Kind) -> &'static str {
+    if kind == Kind::Msg { "takeInt(3);\n    ins_2002(1, pear);\n    ins_2003(\"abc\");\n" } else { "takeInt(3);\n    ins_2002(1, pear);\n    ins_2003(\"abc\");\nl:\n    MYVAR = MYVAR + 1;\n    goto l;\n" }
+}
+
+fn map_cases(sub: &str, key: &str) -> Vec<Case> {
+    let t = tpl(key);
+    let magic = magic_of(t.kind);
+    let mut out: Vec<Case> = vec![];
+    let mut push = |body: &str, map: String, desc: String| out.push(Case::new(t.tool(), t.wrap(&format!("    {body}\n")), &[&map], format!("{key}: mapfile {desc}")));
+    match sub {
+        "num" => {
+            let sections: &[(&str, &str)] = &[("ins_names", "foo"), ("ins_signatures", "S"), ("gvar_names", "FOO"), ("gvar_types", "$"), ("ins_intrinsics", "Jmp()"), ("ins_rets", "S"), ("difficulty_flags", "a-"),
+                ("enum(name=\"Foo\")", "foo"), ("timeline_ins_names", "foo"), ("timeline_ins_signatures", "S")];
+            let nums = ["0", "-1", "2147483647", "2147483648", "-2147483648", "-2147483649", "4294967295", "4294967296", "99999999999", "-99999999999", "65535", "65536", "0x10", "0b1", "1.0", "+5", "1e3", "--1", "-", "١", "１", "007", "-0"];
+            for (sec, val) in sections { for n in nums {
+                push("", format!("{magic}\n!{sec}\n{n} {val}\n"), format!("number `{n}` in !{sec}"));
+                if *sec == "ins_names" { push("foo();", format!("{magic}\n!{sec}\n{n} {val}\n!ins_signatures\n{n} \n"), format!("number `{n}` in !{sec}, then called")); }
+                if *sec == "gvar_names" { push("ins_2000(FOO);", format!("{magic}\n!{sec}\n{n} {val}\n!gvar_types\n{n} $\n!ins_signatures\n2000 S\n"), format!("number `{n}` in !{sec}, then read")); }
+            } }
+        },
+        "hdr" => {
+            let vm = valid_map(t.kind);
+            let texts: Vec<(String, String)> = vec![
+                ("empty file".into(), "".into()), ("only a newline".into(), "\n".into()), ("only magic".into(), format!("{magic}\n")), ("magic without newline".into(), magic.to_string()),
+                ("no magic".into(), "!ins_names\n1 foo\n".into()), ("missing `!`".into(), format!("{}\n!ins_names\n1 foo\n", &magic[1..])), ("bad magic".into(), "!foomap\n!ins_names\n1 foo\n".into()),
+                ("magic `!`".into(), "!\n".into()), ("other language's magic".into(), format!("{}\n!ins_names\n1 foo\n", if t.kind == Kind::Anm { "!eclmap" } else { "!anmmap" })),
+                ("gamemap magic".into(), "!gamemap\n!game_files\n12 x.anmm\n".into()), ("BOM before magic".into(), format!("\u{feff}{magic}\n!ins_names\n1 foo\n")), ("space before magic".into(), format!(" {magic}\n")),
+                ("magic with trailing text".into(), format!("{magic} x\n")), ("internal timeline magic".into(), "!__noncommittal_internal_name_for_timelinemap__do_not_use\n!ins_names\n1 foo\n".into()),
+                ("unknown section".into(), format!("{magic}\n!bogus\n1 foo\n")), ("section given twice".into(), format!("{magic}\n!ins_names\n1 foo\n!ins_names\n2 bar\n")), ("same key twice".into(), format!("{magic}\n!ins_names\n1 foo\n1 bar\n")),
+                ("same name twice".into(), format!("{magic}\n!ins_names\n1 foo\n2 foo\n")), ("entry before any section".into(), format!("{magic}\n1 foo\n")), ("key without value".into(), format!("{magic}\n!ins_names\n5\n")),
+                ("value without key".into(), format!("{magic}\n!ins_names\nfoo\n")), ("section `!`".into(), format!("{magic}\n!\n")), ("section `!1`".into(), format!("{magic}\n!1\n")), ("section with space".into(), format!("{magic}\n!ins names\n")),
+                ("enum()".into(), format!("{magic}\n!enum()\n1 a\n")), ("enum(name=)".into(), format!("{magic}\n!enum(name=)\n1 a\n")), ("enum(name=\"\")".into(), format!("{magic}\n!enum(name=\"\")\n1 a\n")), ("enum(".into(), format!("{magic}\n!enum(\n1 a\n")),
+                ("enum(name=\"a\"))".into(), format!("{magic}\n!enum(name=\"a\"))\n1 a\n")), ("enum(name=\"1x\")".into(), format!("{magic}\n!enum(name=\"1x\")\n1 a\n")), ("enum(name=\"a b\")".into(), format!("{magic}\n!enum(name=\"a b\")\n1 a\n")),
+                ("enum(name=\"é\")".into(), format!("{magic}\n!enum(name=\"é\")\n1 a\n")), ("enum(nom=\"a\")".into(), format!("{magic}\n!enum(nom=\"a\")\n1 a\n")), ("ins_names(x)".into(), format!("{magic}\n!ins_names(x)\n1 a\n")),
+                ("CRLF line ends".into(), vm.replace('\n', "\r\n")), ("CR line ends".into(), vm.replace('\n', "\r")), ("tabs".into(), vm.replace(' ', "\t")), ("no final newline".into(), vm.trim_end().to_string()),
+                ("comment lines".into(), vm.replace('\n', " # c\n")), ("NUL byte".into(), vm.replacen("takeInt", "take\0Int", 1)), ("100 KB line".into(), format!("{magic}\n!ins_names\n1 {}\n", rep("a", 100_000))),
+                ("100 KB signature".into(), format!("{magic}\n!ins_signatures\n2000 {}\n", rep("S", 100_000))), ("10 000 entries".into(), format!("{magic}\n!ins_names\n{}", (0..10_000).map(|i| format!("{i} name{i}\n")).collect::<String>())),
+                ("keyword as name".into(), format!("{magic}\n!ins_names\n1 int\n2 if\n3 REG\n4 ins_5\n5 sin\n6 _S\n")), ("name `ins_7` for opcode 8".into(), format!("{magic}\n!ins_names\n8 ins_7\n")), ("unicode name".into(), format!("{magic}\n!ins_names\n1 日本\n")),
+                ("name with dash".into(), format!("{magic}\n!ins_names\n1 a-b\n")), ("name with space".into(), format!("{magic}\n!ins_names\n1 a b\n")), ("gvar type garbage".into(), format!("{magic}\n!gvar_types\n1 x\n2 \n3 $$\n4 %\n")),
+                ("var and ins share a name".into(), format!("{magic}\n!ins_names\n1 foo\n!gvar_names\n1 foo\n")), ("ins_rets".into(), format!("{magic}\n!ins_rets\n1 S\n2 x\n")),
+            ];
+            for (l, m) in texts { push(valid_map_body(t.kind), m.clone(), l.clone()); push("", m, format!("{l} (unused)")); }
+        },
+        "del" => {
+            let vm = valid_map(t.kind);
+            let body = valid_map_body(t.kind);
+            push(body, vm.clone(), "valid 20-line mapfile".into());
+            for (i, &(a, b)) in lex(&vm).iter().enumerate() { push(body, format!("{}{}", &vm[..a], &vm[b..]), format!("delete token {i} `{}`", &vm[a..b])); }
+            let lines: Vec<&str> = vm.lines().collect();
+            for i in 0..lines.len() {
+                let m: String = lines.iter().enumerate().filter(|(j, _)| *j != i).map(|(_, l)| format!("{l}\n")).collect();
+                push(body, m, format!("delete line {i} `{}`", lines[i]));
+                let m: String = lines.iter().enumerate().map(|(j, l)| if j == i { format!("{l}\n{l}\n") } else { format!("{l}\n") }).collect();
+                push(body, m, format!("duplicate line {i} `{}`", lines[i]));
+            }
+        },
+        "attr" => for sig in ATTR_SIGS { for (vl, vb) in SIG_VARIANTS {
+            push(vb, format!("{magic}\n!ins_signatures\n2000 {sig}\n"), format!("signature `{sig}`, {vl}"));
+            if t.kind == Kind::Ecl && *vl == "unused" { push("", format!("{magic}\n!timeline_ins_signatures\n2000 {sig}\n"), format!("timeline signature `{sig}`")); }
+        } },
+        "intr" => for intr in INTRINSICS { for sig in INTRINSIC_SIGS {
+            let m = format!("{magic}\n!ins_signatures\n2000 {sig}\n!ins_intrinsics\n2000 {intr}\n");
+            push("", m.clone(), format!("intrinsic `{intr}` on signature `{sig}` (unused)"));
+            if t.has_regs() { let r = format!("$REG[{}]", t.ireg); push(&format!("{r} = {r} + 1;\nl:\n    if ({r} == 1) goto l;\n    goto l;"), m, format!("intrinsic `{intr}` on signature `{sig}` (with statements)")); }
+        } },
+        "diff" => {
+            let alpha = ["0", "1", "9", "-", "+", "E", "@", ":", "a"];
+            let mut strs: Vec<String> = vec![String::new()];
+            for a in alpha { strs.push(a.to_string()); }
+            for a in alpha { for b in alpha { strs.push(format!("{a}{b}")); } }
+            strs.extend(["E-x".to_string(), "EE-".into(), "é-".into(), "--".into(), "E -".into()]);
+            for x in &strs {
+                push("ins_2004();", format!("{magic}\n!ins_signatures\n2004 \n!difficulty_flags\n0 {x}\n"), format!("difficulty flag 0 `{x}`"));
+                push(&format!("{{\"{}\"}}: ins_2004();", x.chars().next().unwrap_or('*')), format!("{magic}\n!ins_signatures\n2004 \n!difficulty_flags\n0 {x}\n1 {x}\n"), format!("difficulty flags 0 and 1 both `{x}`, used in a label"));
+            }
+            for ix in ["7", "8", "31", "32", "-1", "255", "256", "2147483647"] {
+                push("{\"a\"}: ins_2004();", format!("{magic}\n!ins_signatures\n2004 \n!difficulty_flags\n{ix} a-\n"), format!("difficulty flag index {ix}"));
+                push("ins_2004();", format!("{magic}\n!ins_signatures\n2004 \n!difficulty_flags\n{ix} a+\n"), format!("default-on difficulty flag index {ix}"));
+            }
+            for lab in ["", "*", "-", "+", "a", "ab", "a-", "a+b", "aa", "E", "1", "9", "*a", "é", "\\\"", "a:b", "0123456789"] {
+                push(&format!("{{\"{lab}\"}}: ins_2004();"), format!("{magic}\n!ins_signatures\n2004 \n!difficulty_flags\n0 a-\n1 b+\n"), format!("difficulty label `{lab}`"));
+            }
+        },
+        "enum" => {
+            let head = format!("{magic}\n!ins_signatures\n2000 S(enum=\"Foo\")\n2001 S(enum=\"bool\")\n");
+            let secs: Vec<(String, String)> = vec![
+                ("plain".into(), "!enum(name=\"Foo\")\n1 a\n2 b\n".into()), ("bad ident 1a".into(), "!enum(name=\"Foo\")\n1 1a\n".into()), ("bad ident a-b".into(), "!enum(name=\"Foo\")\n1 a-b\n".into()),
+                ("bad ident é".into(), "!enum(name=\"Foo\")\n1 é\n".into()), ("bad ident a.b".into(), "!enum(name=\"Foo\")\n1 a.b\n".into()), ("ident ins_3".into(), "!enum(name=\"Foo\")\n1 ins_3\n".into()),
+                ("ident int".into(), "!enum(name=\"Foo\")\n1 int\n".into()), ("ident REG".into(), "!enum(name=\"Foo\")\n1 REG\n".into()), ("empty ident".into(), "!enum(name=\"Foo\")\n1 \n".into()),
+                ("duplicate values".into(), "!enum(name=\"Foo\")\n1 a\n1 b\n".into()), ("duplicate names".into(), "!enum(name=\"Foo\")\n1 a\n2 a\n".into()), ("same line twice".into(), "!enum(name=\"Foo\")\n1 a\n1 a\n".into()),
+                ("redefine bool".into(), "!enum(name=\"bool\")\n2 maybe\n".into()), ("redefine bool.true".into(), "!enum(name=\"bool\")\n0 true\n".into()), ("bool values swapped".into(), "!enum(name=\"bool\")\n0 true\n1 false\n".into()),
+                ("extend AnmSprite".into(), "!enum(name=\"AnmSprite\")\n5 sprite5\n0 a\n".into()), ("extend AnmScript".into(), "!enum(name=\"AnmScript\")\n5 script0\n".into()), ("extend EclSub".into(), "!enum(name=\"EclSub\")\n0 a\n5 sub0\n".into()),
+                ("extend MsgScript".into(), "!enum(name=\"MsgScript\")\n0 main\n".into()), ("extend BitmapColorFormat".into(), "!enum(name=\"BitmapColorFormat\")\n99 a\n".into()),
+                ("two enums share a const".into(), "!enum(name=\"Foo\")\n1 a\n!enum(name=\"Bar\")\n2 a\n".into()), ("two enums share a const, same value".into(), "!enum(name=\"Foo\")\n1 a\n!enum(name=\"Bar\")\n1 a\n".into()),
+                ("enum const named like a var".into(), "!enum(name=\"Foo\")\n1 a\n!gvar_names\n10000 a\n!gvar_types\n10000 $\n".into()), ("enum const named like an instruction".into(), "!enum(name=\"Foo\")\n1 a\n!ins_names\n2000 a\n".into()),
+                ("enum split in two sections".into(), "!enum(name=\"Foo\")\n1 a\n!ins_names\n5 x\n!enum(name=\"Foo\")\n2 b\n".into()), ("enum never defined".into(), "".into()), ("value beyond i32".into(), "!enum(name=\"Foo\")\n4294967296 a\n".into()),
+                ("negative value".into(), "!enum(name=\"Foo\")\n-1 a\n-2147483648 b\n".into()), ("enum named int".into(), "!enum(name=\"int\")\n1 a\n".into()), ("1000 consts".into(), format!("!enum(name=\"Foo\")\n{}", (0..1000).map(|i| format!("{i} c{i}\n")).collect::<String>())),
+            ];
+            let uses = ["", "ins_2000(a);", "ins_2000(Foo.a);", "ins_2000(Bar.a);", "ins_2000(1);", "ins_2000(b);", "ins_2001(true);", "ins_2001(maybe);", "ins_2001(bool.true);", "ins_2000(Foo.nosuch);", "ins_2000(NoEnum.a);", "ins_2000(a + 1);",
+                "const int a = 5;\n    ins_2000(a);", "ins_2000(sprite5);", "ins_2000(AnmSprite.sprite0);", "int a = 3;\n    ins_2000(a);"];
+            for (l, sec) in &secs { for u in uses { push(u, format!("{head}{sec}"), format!("enum section: {l}; use `{}`", u.replace('\n', " "))); } }
+        },
+        s if s.starts_with("sig") => {
+            let var: usize = s[3..].parse().unwrap();
+            if var == 3 {
+                // thorough: all strings of length exactly 3, unused + called without arguments
+                for sig in sig_strings(3).into_iter().filter(|x| x.chars().count() == 3) { push("ins_2000();", format!("{magic}\n!ins_signatures\n2000 {sig}\n"), format!("signature `{sig}`, no args")); }
+            } else {
+                let (vl, vb) = SIG_VARIANTS[var];
+                for sig in sig_strings(2) { push(vb, format!("{magic}\n!ins_signatures\n2000 {sig}\n"), format!("signature `{sig}`, {vl}")); }
+            }
+        },
+        _ => panic!("unknown mapfile sub-family {sub}"),
+    }
+    out
+}
+
+// =============================================================================================
+// (vii) well-formed inputs that fail in a later stage, alone and in pairs
+
+const LATE_TPLS: &[&str] = &["anm12", "ecl06", "ecl08", "anm06", "anm16", "ecl07", "std12", "msg12", "std06"];
+
+/// (body, items appended to the file)
+fn late_faults(t: &Tpl) -> Vec<(String, String)> {
+    let mut v: Vec<(String, String)> = vec![];
+    let mut b = |body: &str| v.push((body.to_string(), String::new()));
+    // faults that need no register
+    for st in [
+        "ins_2004();", // control: valid
+        "l:\nl:\n    ins_2004();", "goto nowhere;", "ins_2000(offsetof(nowhere));", "ins_2000(timeof(nowhere));", "l:\n    goto l;", "l:\n    goto l @ 5;",
+        "ins_2003((\"a\":\"b\"));", "ins_2003(\"a\" + \"b\");", "ins_2000(\"a\");", "ins_2003(1);", "const string s = \"a\";\n    ins_2003(s:s);", "ins_2003(\"a\" == \"a\" ? \"b\" : \"c\");",
+        "ins_2000(x);", "int x = 1;\n    ins_2000(x);", "int x;\n    ins_2000(x);", "int x = 1;\n    int x = 2;", "x = 1;\n    int x;", "float y = 1;\n", "int x = 1.0;", "var z = 1;\n    ins_2000(z);",
+        "break;", "loop { ins_2004(); }\n    break;", "loop { ins_2004(); break; }", "return;", "return 1;", "interrupt[1]:\n    ins_2004();", "interrupt[-1]:", "interrupt[1.0]:", "interrupt[x]:",
+        "ins_2000(1:2:3:4);", "{\"E\"}: ins_2004();", "{\"Q\"}: ins_2004();", "{\"\"}: ins_2004();", "{\"*\"}: ins_2004();", "{\"EE-\"}: ins_2004();", "{\"E\"}: { ins_2004(); }", "{\"E\"}: l:",
+        "times(3) { ins_2004(); }", "times(3 = 3) { }", "times(x = 3) { }", "times(0) { }", "if (1) { ins_2004(); }", "if (1.0) { ins_2004(); }", "if (\"a\") { }", "while (1) { ins_2004(); }", "do { ins_2004(); } while (0);",
+        "unless (1 == 1) goto l;\nl:", "if (1 == 1) break;", "const int K = 1;\n    K = 2;", "const int K = 1;\n    ins_2000(K++);", "ins_2000(bool.true);", "ins_2000(Foo.x);", "ins_2000(AnmSprite.nosuch);", "ins_2000(sprite9);", "ins_2000(script9);",
+        "nosuch();", "nosuch(1, 2);", "ins_2000();", "ins_2000(1, 2);", "ins_2000(1.0);", "ins_2001(1);", "ins_2005(1);", "ins_2000(ins_2004());", "ins_2000(takeInt(1));", "ins_9999();", "ins_9999(1, 2.0);", "ins_2000(@mask=1, 1);",
+        "@nosuch(1) async;", "nosuch(1) async;", "nosuch(1) async 5;", "@ins_2004();", "@takeInt(1);", "takeInt(1) async;", "void inner() { ins_2004(); }", "const int inner() { return 1; }\n    ins_2000(inner());", "int inner(int a) { return a; }",
+        "inline void inner() {}", "void inner();", "const void inner() {}\n    inner();", "const int f(int a) { return f(a); }\n    ins_2000(f(1));", "const int f(int a) { return a + 1; }\n    ins_2000(f(f(f(1))));", "const int f() { }\n    ins_2000(f());",
+        "x[1];", "ins_2000(x[1]);", "1;", "1 + 1;", "\"s\";", "ins_2000(1) ;;", "+5:\n-3:\n10:\n    ins_2004();", "10:\n5:\n    ins_2004();\n+(-20):\n    ins_2004();", "ins_2004();\n    ins_0();\n    ins_2004();", "ins_2000(_S(1.0));", "ins_2001(_f(1));", "ins_2000($1);",
+    ] { b(st); }
+    if t.has_regs() {
+        let (r, f) = (format!("$REG[{}]", t.ireg), format!("%REG[{}]", t.freg));
+        let many: String = (0..12).map(|i| format!("int a{i} = {r};\n    ")).collect::<String>() + &format!("{r} = a0 + a1 + a2 + a3 + a4 + a5 + a6 + a7 + a8 + a9 + a10 + a11;");
+        let manyf: String = (0..12).map(|i| format!("float b{i} = {f};\n    ")).collect::<String>() + &format!("{f} = b0 + b11;");
+        for st in [
+            many, manyf, format!("{r} = ({r} + 1) * (({r} + 2) * (({r} + 3) * (({r} + 4) * (({r} + 5) * ({r} + 6)))));"), format!("{f} = ({f} + 1.0) * (({f} + 2.0) * (({f} + 3.0) * (({f} + 4.0) * ({f} + 5.0))));"),
+            format!("{r} = {r} % 3;"), format!("{r} = {r} << 2;"), format!("{r} = {r} >>> 1;"), format!("{r} = {r} & 1;"), format!("{r} = {r} ^ {r};"), format!("{r} = ~{r};"), format!("{r} = !{r};"), format!("{r} = -{r};"), format!("{r} = {r} && {r};"), format!("{r} = {r} || 1;"),
+            format!("{r} = {r} == 1;"), format!("{r} = {r} < {r};"), format!("{f} = sqrt({f});"), format!("{f} = tan({f});"), format!("{f} = asin({f});"), format!("{f} = acos({f});"), format!("{f} = atan({f});"), format!("{f} = sin({f});"), format!("{f} = cos({f});"), format!("{f} = -{f};"),
+            format!("{r} = int({f});"), format!("{f} = float({r});"), format!("{r} = int({f} + 1.0) + 1;"), format!("{r} = _S({f});"), format!("{f} = _f({r});"), format!("{r} = ${};", &f[1..]), format!("{r} = {f};"), format!("{f} = {r};"), format!("{r} = 1.0;"), format!("{f} = 1;"), format!("{r} = \"a\";"),
+            format!("{r} <<= 1;"), format!("{r} %= 2;"), format!("{r} |= 1;"), format!("{r} >>>= 1;"), format!("{f} %= 2.0;"), format!("{r} /= 0;"), format!("{r}++;"), format!("++{r};"), format!("ins_2000({r}++);"), format!("{r} = {r} ? 1 : 2;"), format!("{r} = {r} ? {r} : ({r} ? 1 : 2);"),
+            format!("{r} = 1:2:3:4;"), format!("{r} = ({r}:2:3:4) + 1;"), format!("ins_2000({r}:{r}:1:2);"), format!("ins_2000(({r} + 1):2:3:4);"), format!("{{\"E\"}}: {r} = {r} + ({r} * 2);"),
+            format!("if ({r}) {{ ins_2004(); }}"), format!("if ({f}) {{ ins_2004(); }}"), format!("if ({r} == 1 && {r} == 2 || {r} == 3) {{ ins_2004(); }} else {{ ins_2004(); }}"), format!("if (!({r} < 1)) goto l;\nl:"), format!("while ({r}--) {{ ins_2004(); }}"),
+            format!("times({r}) {{ ins_2004(); }}"), format!("times({r} = 3) {{ ins_2004(); }}"), format!("times({f} = 3) {{ ins_2004(); }}"), format!("times({r} = {r}) {{ }}"), format!("times(3) {{ times(3) {{ times(3) {{ times(3) {{ times(3) {{ ins_2004(); }} }} }} }} }}"),
+            format!("interrupt[{r}]:"), format!("ins_2000(@mask=1, {r});"), format!("ins_2000(@mask=0, {r});"), format!("ins_2001({r});"), format!("ins_2000({f});"), format!("ins_2003({r});"), format!("ins_2000({r} + 1);"), format!("ins_2002({r} + 1, {r} * 2);"), format!("ins_2005({r} * 2, {f} * 2.0);"),
+            format!("{r} = offsetof(l);\nl:"), format!("{r} = {r} + offsetof(nowhere);"), format!("ins_509();\n    {f} = ({f} + 1.0) * (({f} + 2.0) * ({f} + 3.0));"), format!("ins_130(1);\n    {f} = ({f} + 1.0) * (({f} + 2.0) * ({f} + 3.0));"),
+            format!("$REG[99999] = {r};"), format!("{r} = $REG[99999] + 1;"), format!("int a = {r};\n    {{ int a = a + 1; {r} = a; }}\n    {r} = a;"), format!("int a = {r};\n    goto l;\n    {{ int b = 1;\nl:\n    {r} = b; }}"),
+        ] { b(&st); }
+    }
+    // file-level faults
+    let mut i = |items: &str| v.push(("ins_2004();".to_string(), items.to_string()));
+    for it in [
+        "inline void f() {}\n", "void f();\n", "int f() { return 1; }\n", "float f(float a) { return a; }\n", "const int f() { return 1; }\n", "void f(string s) {}\n", "void f(var x) {}\n", "void f(int x, int y) {}\n", "void f(float a, int b, float c) {}\n",
+        "void f(int) {}\n", "void f(int a, int a) {}\n", "void f() {}\nvoid f() {}\n", "const void f() {}\nvoid f() {}\n", "void f() { f(); }\n", "void f(int a) { g(a); }\nvoid g(int a) { f(a); }\n", "void f(int a) { f(1.0); }\n", "void f(int a) { f(); }\n",
+        "script 5 extra {}\n", "script -1 extra {}\n", "script 65536 extra {}\n", "script 1 aa {}\nscript 1 bb {}\n", "script extra {}\nscript extra {}\n", "script script0 {}\n", "script sub0 {}\n", "script extra { ins_0(nosuch, 1.0, 2.0, 3.0, 4, 5, 6); }\n",
+        "script extra { ins_2000(1); }\n", "script extra { ins_2000(@arg0=5, 1); }\n", "script extra { ins_2004(@arg0=5); }\n", "script extra { sub0(); }\n", "script extra { int x = 1; }\n", "script extra { $REG[10000] = 1; }\n",
+        "const int K = K2;\nconst int K2 = K;\n", "const int K = 1;\nconst int K = 2;\n", "const float K = \"s\";\n", "const string K = 1;\n", "const int K = 1.5;\n", "const int K = nosuch;\n", "const int K = sprite0;\n", "const int K = 1 / 0;\n", "const int sprite0 = 5;\n", "const int sub0 = 1;\n",
+        "meta { x: 1 }\n", "entry { path: \"a\" }\n", "entry {}\n", "meta {}\n", "#pragma mapfile \"nosuch.map\"\n", "#pragma image_source \"nosuch.anm\"\n", "#pragma bogus \"x\"\n",
+    ] { i(it); }
+    v
+}
+
+fn wrap_file(t: &Tpl, bodies: &[&str], items: &str) -> String {
+    let ind = |b: &str| format!("    {b}\n");
+    match (t.kind, bodies.len()) {
+        (_, 1) => t.wrap(&ind(bodies[0])) + items,
+        (Kind::Anm, _) => format!("{}script script0 {{\n{}}}\nscript script1 {{\n{}}}\n{items}", t.head, ind(bodies[0]), ind(bodies[1])),
+        (Kind::Ecl, _) => format!("{}void sub0() {{\n{}}}\nvoid sub1() {{\n{}}}\n{items}", t.head, ind(bodies[0]), ind(bodies[1])),
+        (Kind::Msg, _) | (Kind::End, _) => format!("{}script main {{\n{}}}\nscript other {{\n{}}}\n{items}", t.head.replace("table: {", "table: {1: {script: \"other\"}, "), ind(bodies[0]), ind(bodies[1])),
+        _ => t.wrap(&format!("{}{}", ind(bodies[0]), ind(bodies[1]))) + items,
+    }
+}
+
+fn late_cases(key: &str, mode: &str) -> Vec<Case> {
+    let t = tpl(key);
+    let faults = late_faults(&t);
+    let map = test_map(t.kind);
+    let short = |s: &str| s.replace('\n', " ").chars().take(50).collect::<String>();
+    let mut out = vec![];
+    if mode == "alone" {
+        for (b, it) in &faults { out.push(Case::new(t.tool(), wrap_file(&t, &[b], it), &[&map], format!("{key}: `{}`{}", short(b), if it.is_empty() { String::new() } else { format!(" + item `{}`", short(it)) }))); }
+    } else {
+        for (i, (b1, it1)) in faults.iter().enumerate() { for (j, (b2, it2)) in faults.iter().enumerate() {
+            if i == j { continue; }
+            if !it1.is_empty() && !it2.is_empty() && it1 != it2 && (it1.contains("f(") && it2.contains("f(")) { continue; } // both define `f`: that is a different fault
+            out.push(Case::new(t.tool(), wrap_file(&t, &[b1, b2], &format!("{it1}{it2}")), &[&map], format!("{key}: pair `{}`{} / `{}`{}", short(b1), short(it1), short(b2), short(it2))));
+        } }
+    }
+    out
+}
+
+// =============================================================================================
 // item table
 
 fn items(thorough: bool) -> Vec<String> {
@@ -589,7 +1063,18 @@ fn items(thorough: bool) -> Vec<String> {
     v
 }
 
-fn other_items(_thorough: bool) -> Vec<String> { vec![] }
+fn other_items(thorough: bool) -> Vec<String> {
+    let mut v = vec![];
+    for k in LATE_TPLS { v.push(format!("late:{k}:alone")); }
+    for k in LIT_TPLS { v.push(format!("lit:{k}")); }
+    v.push("lit:mission095".into());
+    for sh in NEST_SHAPES { for k in nest_tpls(sh) { v.push(format!("nest:{sh}:{k}")); } }
+    for sub in ["num", "hdr", "del", "attr", "intr", "diff", "enum"] { for k in MAP_TPLS { v.push(format!("map:{sub}:{k}")); } }
+    for k in MAP_TPLS { for var in 0..SIG_VARIANTS.len() { v.push(format!("map:sig{var}:{k}")); } }
+    if thorough { for k in MAP_TPLS { v.push(format!("map:sig3:{k}")); } }
+    for k in LATE_TPLS { v.push(format!("late:{k}:pairs")); }
+    v
+}
 
 fn family_of(item: &str) -> &str { item.split(':').next().unwrap_or("") }
 
@@ -599,9 +1084,13 @@ fn gen_cases(item: &str, thorough: bool) -> Vec<Case> {
         "seed" => seeds().iter().map(|s| { let maps: Vec<&str> = s.map.iter().map(|m| m.as_str()).collect(); Case::new(tool(s.kind, s.game), s.src.clone(), &maps, format!("seed {}", s.name)) }).collect(),
         "tok" => tok_cases(parts[1].parse().unwrap(), parts[2], &seeds()),
         "byte" => byte_cases(parts[1].parse().unwrap(), parts[2], &seeds(), thorough),
+        "lit" => lit_cases(parts[1]),
+        "nest" => nest_cases(parts[1], parts[2], thorough),
+        "map" => map_cases(parts[1], parts[2]),
+        "late" => late_cases(parts[1], parts[2]),
         _ => panic!("unknown item {item}"),
     };
-    for c in &mut cases { if c.sigkey.is_empty() { c.sigkey = parts[0].to_string(); } }
+    for c in &mut cases { if parts[0] == "nest" { c.sigkey = format!("nest-{}", parts[1]); } }
     cases
 }
 
@@ -671,7 +1160,7 @@ pub fn run(tier: &str) -> Report {
             rep.outcome(&format!("{fam}|{what}{}", if c.info_only { " (beyond the property's bound; information only)" } else { "" }));
             if fam == "nest" { nest_deaths.entry(format!("{}:{}", c.sigkey, kind_name(c.tool.kind))).or_insert(json!({"first_death": c.desc, "how": how, "violation": !c.info_only})); }
             if c.info_only { continue; }
-            let sig = format!("C04:{what}:{}:{}", c.sigkey, kind_name(c.tool.kind));
+            let sig = death_sig(c, how, *timeout);
             let len = c.src.len();
             let b = fail_best.entry(sig).or_insert((0, usize::MAX, item.clone(), *k));
             b.0 += 1;
@@ -774,7 +1263,7 @@ pub fn replay(detail: &Value) -> i32 {
             },
             Attempt::Died { how, timeout, .. } => {
                 println!("run {round}: worker {} ({how})", if timeout { "timed out" } else { "died" });
-                if case.info_only { println!("(beyond the property's bound: information only)"); verdicts.push(false) } else { println!("VIOLATES: C04:{}:{}:{}", if timeout { "timeout" } else { "abort" }, case.sigkey, kind_name(case.tool.kind)); verdicts.push(true) }
+                if case.info_only { println!("(beyond the property's bound: information only)"); verdicts.push(false) } else { println!("VIOLATES: {}", death_sig(&case, &how, timeout)); verdicts.push(true) }
             },
         }
     }
